@@ -319,6 +319,14 @@ def main():
         if rc == 0:
             continue
         fails = (s or {}).get("failures") or []
+        if not fails:
+            # the process died (a fixture's fatal exit, a panic in the code under test) after a property had already
+            # reported a violation and written its replay file, but before the statistics were written: the
+            # violation stands
+            import re
+            for m in re.finditer(r"property \S+ violated: .*?\(replay (\S+?\.json)\)", out):
+                if os.path.exists(m.group(1)) and m.group(1) not in fails:
+                    fails.append(m.group(1))
         if fails:
             for fp in fails:
                 violations.append(fp)
